@@ -491,7 +491,8 @@ impl<'a> Selector<'a> {
             Expr::FilterFunc(filter_expr) => match filter_expr {
                 FilterFunc::Exists(paths) => self.eval_exists(root, pos, paths),
             },
-            _ => todo!(),
+            // arithmetic expressions are parsed but can not be evaluated yet
+            _ => Err(Error::InvalidJsonPath),
         }
     }
 
